@@ -225,7 +225,8 @@ type vfMqRecorder struct {
 	log []vfMqBackendRec
 }
 
-// Handle records the PUBLISH; a payload starting with "DROP" makes the pipeline drop the packet.
+// Handle records the PUBLISH; a payload starting with "DROP" makes the pipeline drop the packet,
+// one starting with "KICK" makes it ask for the client's disconnection.
 func (r *vfMqRecorder) Handle(ctx *context.Context) string {
 	req, ok := ctx.GetRequest(context.DefaultNamespace).(*mqttprot.Request)
 	if !ok || req.PacketType() != mqttprot.PublishType {
@@ -237,6 +238,10 @@ func (r *vfMqRecorder) Handle(ctx *context.Context) string {
 	r.mu.Unlock()
 	if strings.HasPrefix(string(p.Payload), "DROP") {
 		ctx.GetResponse(context.DefaultNamespace).(*mqttprot.Response).SetDrop()
+	}
+	if strings.HasPrefix(string(p.Payload), "KICK") {
+		// a backend filter that answers "disconnect this client" (Client.runPipeline -> Client.close)
+		ctx.GetResponse(context.DefaultNamespace).(*mqttprot.Response).SetDisconnect()
 	}
 	return ""
 }
